@@ -20,6 +20,16 @@ def writer_layout(ctx, fi: FuncInfo):
                 and len(n.value.keys) == 1 and isinstance(n.value.values[0], ast.List) and not n.value.values[0].elts:
             holder, name_expr = n.targets[0].id, n.value.keys[0]
     if holder is None:
+        # the whole document built as one literal: {node.name: [{key: value}, ...]}
+        for n in ast.walk(fi.node):
+            lit = n.value if isinstance(n, (ast.Return, ast.Assign)) else None
+            if isinstance(lit, ast.Dict) and len(lit.keys) == 1 and isinstance(lit.values[0], ast.List) and lit.values[0].elts \
+                    and all(isinstance(x, ast.Dict) and len(x.keys) == 1 for x in lit.values[0].elts):
+                out = []
+                for x in lit.values[0].elts:
+                    k = prog.const(fi.module, x.keys[0])
+                    out.append((k if isinstance(k, str) else None, x.values[0], n))
+                return out, lit.keys[0], None
         raise AnalysisError(f"anchor vanished: `{{name: []}}` holder in {fi.qname}")
     out = []
 
